@@ -118,7 +118,7 @@ def oracle(script: dict, run: Any) -> List[Violation]:
                 out.append(Violation("C13/depends-on-seconds", f"'{script['expr']}' offset {off}: different answers within the minute of {now.isoformat()}: {res}"))
                 break
         return out
-    for now_us, task, res in run.delay_log:
+    for now_us, task, res, _sq in run.delay_log:
         if task.cron is None:
             continue
         off = off_spec(task.cron_offset)
@@ -148,7 +148,7 @@ def probes(script: dict, run: Any) -> Dict[str, int]:
             if any(not zones_agree(off["zone"], from_us(u)) for u in script["instants"][::97]):
                 res["zones_disagree_skipped"] = 1
     else:
-        res["insitu_calls"] = int(any(t.cron is not None for _, t, _ in run.delay_log))
+        res["insitu_calls"] = int(any(t.cron is not None for _, t, _, _ in run.delay_log))
     return res
 
 
@@ -156,7 +156,7 @@ def nontrivial(script: dict, run: Any) -> bool:
     if script["mode"] == "sweep":
         got = {e[4]["res"][0] for e in run.events}
         return 0 in got and None in got
-    return any(t.cron is not None and r == 0 for _, t, r in run.delay_log)
+    return any(t.cron is not None and r == 0 for _, t, r, _ in run.delay_log)
 
 
 def signature(run: Any) -> int:
